@@ -1000,6 +1000,15 @@ class QuantityMeta(ClassWithDefinitionMeta):
         # reference unit
         if define_as is not None:
             assert define_as, "Given definition is not valid."  # empty Term
+            # reject a second class for the same dimension before anything
+            # (i.e. the reference unit) gets registered
+            try:
+                reg_cls = QuantityMeta._registry[define_as]
+            except KeyError:
+                pass
+            else:
+                raise ValueError("Item with same or equivalent definition "
+                                 f"already registered: '{reg_cls}'.")
             try:
                 ref_unit_def = UnitDefT(_iter_ref_units(define_as))
             except TypeError:
